@@ -259,7 +259,7 @@ func newSUT(cc caseCfg) (*sut, error) {
 	clk := sim.NewVClock(base)
 	state := limit.NewRateLimitState(clk, logging.ContextLogger{})
 	plugin, err := remedies.NewStrategyBasedThrottlingPlugin(context.Background(), clk, nil, state,
-		obfuscation.Obfuscator{Hasher: obfuscation.MD5Hasher{}})
+		obfuscation.Obfuscator{Hasher: obfuscation.IdentityHasher{}}) // the wiring of services.go (identity obfuscator)
 	if err != nil {
 		return nil, err
 	}
@@ -333,6 +333,9 @@ func genConfig(r *sim.Rand) caseCfg {
 			rc.Grouped = true
 			rc.Header = sim.Pick(r, []string{"x-group", "x-tenant"})
 			vals := []string{"g1", "g2", "g3"}
+			if r.Chance(1, 4) { // group values that differ only in letter case are different groups
+				vals = []string{"Gold", "gold", "g3"}
+			}
 			ng := r.Range(1, 3)
 			for j := 0; j < ng; j++ {
 				rc.Groups = append(rc.Groups, groupCfg{Value: vals[j], PctMilli: genPct(r)})
@@ -367,7 +370,7 @@ func genKeys(r *sim.Rand, cc caseCfg) []keyPick {
 			out = append(out, keyPick{Remedy: i})
 			continue
 		}
-		pool := []keyPick{{i, true, "zz"}, {i, true, "yy"}, {i, false, ""}}
+		pool := []keyPick{{i, true, "zz"}, {i, true, "yy"}, {i, false, ""}, {i, true, "GOLD"}, {i, true, "G1"}}
 		for _, g := range rc.Groups {
 			pool = append(pool, keyPick{i, true, g.Value})
 		}
